@@ -106,12 +106,16 @@ def slot_value(rng, schema, which, u):
     return GS.rloop(rng, u.lab, u.d, minlabel, True)
 
 
-def gen_setter_history(rng, schema, n_tracks=2, n_ops=30, big=False):
+def gen_setter_history(rng, schema, n_tracks=2, n_ops=30, big=False, first_id=None):
     """Ops: create n tracks from rich snapshots, then n_ops single-field setter calls.
     Returns (ops, metas): metas[i] describes ops[i] (None for set-up ops)."""
     u = Uniq()
     ops = [{"op": "create_temporary", "schema": schema}]
     metas = [None]
+    if first_id is not None:
+        pre = first_id_prelude(schema, first_id)
+        ops += pre
+        metas += [None] * len(pre)
     for t in range(n_tracks):
         s = GS.gen_snapshot(rng, schema, rich=True, hostile_sentinels=False)
         # always give rate and count so that waveform setters are in contract
@@ -204,3 +208,31 @@ def gen_library_history(rng, schema, n_ops, rich_tracks=2, hostile=False):
         else:
             push(FO.gen_membership_op(rng, st))
     return ops, metas
+
+
+FIRST_IDS = [2 ** 31 - 3, 2 ** 32 - 3, 2 ** 31 + 7, 2 ** 53 - 3, 2 ** 62]
+
+
+def first_id_prelude(schema, first_id):
+    """Ops that make the next track (and, on 2.x, crate and membership) id be about `first_id`, the way a long-lived
+    or merged library has them.  2.x: the AUTOINCREMENT counters are advanced.  1.x: ids are max(id) + 1, so one
+    complete track is created through the library and its id moved up in every table that carries it."""
+    from .framework import is_v2
+    if is_v2(schema):
+        return [{"op": "raw_exec", "sql": "DELETE FROM sqlite_sequence WHERE name IN ('Track', 'Playlist', 'PlaylistEntity')"},
+                {"op": "raw_exec", "sql": "INSERT INTO sqlite_sequence (name, seq) VALUES ('Track', %d), ('Playlist', %d), ('PlaylistEntity', %d)"
+                 % (first_id - 1, first_id - 2, first_id - 3)}]
+    from .framework import schema_tuple
+    if schema_tuple(schema) >= (1, 17, 0):
+        # Track is AUTOINCREMENT from 1.17.0 (and its id is protected by a trigger)
+        return [{"op": "raw_exec", "sql": "DELETE FROM music.sqlite_sequence WHERE name = 'Track'"},
+                {"op": "raw_exec", "sql": "INSERT INTO music.sqlite_sequence (name, seq) VALUES ('Track', %d)" % (first_id - 1)}]
+    ops = [{"op": "create_track", "as": "idseed", "snap": {"relative_path": "69642f736565642e6d7033"}},
+           {"op": "release_handle", "h": "idseed"}]
+    for tbl, col in (("Track", "id"), ("MetaData", "id"), ("MetaDataInteger", "id"), ("perfdata.PerformanceData", "id")):
+        ops.append({"op": "raw_exec", "sql": "UPDATE %s SET %s = %d WHERE %s = (SELECT MAX(id) FROM Track WHERE path = 'id/seed.mp3')"
+                    % (tbl, col, first_id - 1, col)} if tbl != "Track" else None)
+    ops = [o for o in ops if o]
+    # Track last: the sub-select above finds the seed by its path while its id is still the old one
+    ops.append({"op": "raw_exec", "sql": "UPDATE Track SET id = %d WHERE path = 'id/seed.mp3'" % (first_id - 1)})
+    return ops
